@@ -9,7 +9,8 @@ open Tins Tins.Wire
 
 /-- none of the `uint32_t` size computations wraps (such a packet cannot be serialized: `size()` is a `uint32_t`) -/
 def Icmp6.Ser (p : Icmp6) : Prop :=
-  8 + Icmp6.wireSum p.opts + p.extra + 32 < 4294967296 ∧ p.ext.plainSize < 4294967296
+  8 + Icmp6.wireSum p.opts + p.extra + (if Icmp6.hasTarget p.type then 16 else 0) + (if Icmp6.hasDest p.type then 16 else 0)
+      < 4294967296 ∧ p.ext.plainSize < 4294967296
 
 def icmp6Sem (cx : Ctx) (p : Icmp6) : LayerSem :=
   { name := "ICMPv6", hdr := p.hdr, trl := p.trl cx.innerSize, write := p.write cx }
@@ -217,8 +218,7 @@ theorem icmp6_hdr_eq (p : Icmp6) (hi : p.Inv) (hs : p.Ser) :
   have hw : Icmp6.wireSum p.opts % 4294967296 = Icmp6.wireSum p.opts := Nat.mod_eq_of_lt (by omega)
   unfold Icmp6.hdr
   rw [hi.optsSize, hw]
-  apply Nat.mod_eq_of_lt
-  split <;> split <;> omega
+  exact Nat.mod_eq_of_lt h1
 
 theorem icmp6_headBytes_length (p : Icmp6) (hi : p.Inv) (hs : p.Ser) (inner : Option Nat) :
     (p.headBytes inner).length = p.hdr := by
